@@ -78,7 +78,8 @@ Step(ln) ==
   \/ IsOp("Incref") /\ Incref(ln.a[1])
   \/ IsOp("Decref") /\ Decref(ln.a[1])
   \/ IsOp("Copy") /\ ln.ret # 0 /\ Copy(ln.a[1], PreOrder(ln, ln.ret), [i \in Range(PreOrder(ln, ln.ret)) |-> CapOf(i)])
-  \/ IsOp("Load") /\ (IF ln.ret = 0 THEN UNCHANGED ivars ELSE Adopt(ln))
+  \/ IsOp("Load") /\ (IF ln.ret = 0 THEN ret' = 0 /\ UNCHANGED <<live, item, client, bad, grows>>      \* refused input: nothing may remain
+                                     ELSE Adopt(ln))
   \/ IsOp("Serialize") /\ Holds(ln.a[1]) /\ ret' = 1 /\ UNCHANGED <<live, item, client, bad, grows>>   \* reads only
 
 (* reallocations this call cost are charged to the container it operated on (C12: logarithmic growth) *)
